@@ -2,6 +2,7 @@ SPECIFICATION Spec
 CONSTANTS
   Checks = {"hooks"}
   TraceFile = "trace.ndjson"
+  Deviations = {}
 CONSTRAINT HighWater
 POSTCONDITION Accepted
 CHECK_DEADLOCK FALSE
